@@ -1085,7 +1085,7 @@ void stage_consistency(report_t& r, const args_t& args)
     T.n1[0] = static_cast<int>(args.geti("n1-o1", args.thorough() ? 4 : 3));
     T.n1[1] = static_cast<int>(args.geti("n1-o2", args.thorough() ? 4 : 3));
     T.n2[0] = static_cast<int>(args.geti("n2-o1", 3));
-    T.n2[1] = static_cast<int>(args.geti("n2-o2", args.thorough() ? 3 : 2));
+    T.n2[1] = static_cast<int>(args.geti("n2-o2", 2));
     T.nx    = static_cast<int>(args.geti("nx-o1", 4)); // trees of depth 2 need >= 4 samples with 4 distinct values
     T.full2 = static_cast<int>(args.geti("full2", 0));
     // two features, n >= this: only the criteria rss and aicc (the default)
